@@ -15,8 +15,8 @@ SPEC = {
                    "bytes/len and answer every in-range read identically (separate models of the three back-ends, simulation proof). "
                    "Everything above (Storage<D>, Db) is generic Rust code that touches its back-end only through these calls, so equal "
                    "observations give equal query results; that step is argued (parametricity), not proved, hence level `other`. "
-                   "Tie: the `st` stream runs the real Storage on all three real back-ends side by side on generated histories and compares "
-                   "every result, length, record table, free list, emitted call trace and byte image with each other and with the Lean model."),
+                   "Ties: (1) the `st` stream runs the real Storage on all three real back-ends side by side on generated histories and compares "
+                   "every result, length, record table, free list, emitted call trace and byte image with each other and with the Lean model; (2) harness_db runs every generated query history (nodes/edges/values/aliases/indexes/removals/failing queries/transactions/selects/searches, with close-and-reopen of the file-backed variants) on DbMemory, DbFile, Db and DbAny(memory/file/mapped) side by side and requires byte-identical outputs, DbMemory being also compared with the Lean Db model."),
     "level_note": ("Trusted: Lean kernel; hand-written back-end models (validated by the st stream); the hypothesis that Storage never issues a "
                    "write starting past the end (checked on the real code by the st stream on every call; Lean statement C04_calls_wellformed); "
                    "Rust generics: Storage<D>/DbImpl<D> observe D only through the StorageData trait. AnyStorage delegates by a match."),
@@ -26,4 +26,11 @@ SPEC = {
     "quick": {"extra_args": []},
     "thorough": {"extra_args": []},
     "compare": "lines",
+    # second tie, at the query level: every generated query history on DbMemory, DbFile, Db and DbAny (3 inner kinds)
+    # side by side (oracle: byte-identical outputs incl. error kinds), DbMemory's output compared with the Lean Db model
+    "extra_runs": [{
+        "name": "db", "group": "db", "harness_bin": "harness_db", "lean_project": "AgdbDb", "driver": "dbmodel",
+        "props_module": "AgdbDb.Props.C08", "audit_file": "AgdbDb/Audit/C08.lean",
+        "full_theorems": [], "partial_theorems": [], "counterexamples": [],
+    }],
 }
